@@ -16,6 +16,8 @@ LEVEL = "other"
 def run(chk):
     cfgs = ["base", "z"] if chk.tier == "quick" else ["base", "z", "hi", "noexc"]
     chk.configs = cfgs
+    chk.rule("SCALE.total", "ScalePath / ScalePaths return the element-wise image of their input on every path that has not just reported an error "
+             "(must-pass dataflow; pure size tests exempt): no geometry-dependent shortcut drops the caller's paths before the integer operation")
     chk.rule("PRECISION.forwarded", "every function with a precision parameter uses it for more than validation (pow(10, .), a ClipperD constructor, another "
              "function's precision) and constructs no ClipperD with the default precision: integer scaling / translation of decimal data is honoured")
     chk.rule("SCALE.wrapper", "dimensional analysis of every function that derives a scale from a precision: S^1 at every integer-API "
@@ -34,6 +36,7 @@ def run(chk):
         _e8p.rule_precision_forwarded(db, chk, cfg)
         e8.rule_clipperd_scale_table(db, chk, cfg)
         e8.rule_rounding(db, chk, cfg)
+        e8.rule_scale_total(db, chk, cfg)
         try:
             from ..engines import e6_siblings as e6
         except ImportError:
